@@ -128,6 +128,7 @@ type Server interface {
 // Use the NewServer function to create a new server.
 type server struct {
 	connections         map[string]*webSocket
+	closing             map[string]chan struct{} // per client id: closed once the disconnected handler of the previous connection returned
 	httpServer          *http.Server
 	messageHandler      func(ws Channel, data []byte) error
 	checkClientHandler  CheckClientHandler
@@ -253,6 +254,7 @@ func (s *server) AddHttpHandler(listenPath string, handler func(w http.ResponseW
 func (s *server) Start(port int, listenPath string) {
 	s.connMutex.Lock()
 	s.connections = make(map[string]*webSocket)
+	s.closing = make(map[string]chan struct{})
 	s.connMutex.Unlock()
 
 	if s.httpServer == nil {
@@ -441,11 +443,17 @@ out:
 	)
 	// Add new client
 	s.connections[ws.id] = ws
+	previous := s.closing[ws.id]
 	s.connMutex.Unlock()
 	// Start reader and write routine. The disconnected handler has to wait for the new client handler.
 	ws.announce.Add(1)
 	defer ws.announce.Done()
 	ws.run()
+	if previous != nil {
+		// The end of the previous connection with this id is still being reported: the application must hear about
+		// it first, or it takes the late notification for this connection (e.g. ocppj.Server drops the client's state).
+		<-previous
+	}
 	if s.newClientHandler != nil {
 		var channel Channel = ws
 		s.newClientHandler(channel)
@@ -461,12 +469,24 @@ func (s *server) handleMessage(w Channel, data []byte) error {
 }
 
 func (s *server) handleDisconnect(w Channel, _ error) {
-	// server never attempts to auto-reconnect to client. Resources are simply freed up
+	// server never attempts to auto-reconnect to client. Resources are simply freed up.
+	// The id is free for a new connection from here on, but that connection is announced only after the
+	// disconnected handler of this one has returned.
+	done := make(chan struct{})
 	s.connMutex.Lock()
 	delete(s.connections, w.ID())
+	if s.closing != nil {
+		s.closing[w.ID()] = done
+	}
 	s.connMutex.Unlock()
 	log.Infof("closed connection to %s", w.ID())
 	if s.disconnectedHandler != nil {
 		s.disconnectedHandler(w)
 	}
+	s.connMutex.Lock()
+	if s.closing[w.ID()] == done {
+		delete(s.closing, w.ID())
+	}
+	s.connMutex.Unlock()
+	close(done)
 }
